@@ -170,7 +170,7 @@ func BuildReceiverStreamID(source, target history.ClusterShardID) string {
 // BuildForwarderStreamID returns the canonical forwarder stream ID.
 // Note: forwarder uses server-first ordering in the ID.
 func BuildForwarderStreamID(source, target history.ClusterShardID) string {
-	return fmt.Sprintf("fwd-snd-%s", ClusterShardIDtoShortString(source))
+	return fmt.Sprintf("fwd-snd-%s-%s", ClusterShardIDtoShortString(source), ClusterShardIDtoShortString(target))
 }
 
 // BuildIntraProxySenderStreamID returns the server-side intra-proxy stream ID for a peer and shard pair.
